@@ -142,7 +142,12 @@ class _ServerInternalRunAdapter(BaseInternalRunAdapterDecorator):
                     )
 
                 envelope = EventEnvelopeWithMetadata.from_event(event)
-                await self._store.append_event(self.run_id, envelope)
+                # Same retry/backoff as the status writes: a transient failure of
+                # the event log must not kill the control loop (which would leave
+                # the handler 'running' with no run behind it).
+                await self._runtime._retry_store_write(
+                    lambda: self._store.append_event(self.run_id, envelope)
+                )
 
             # Always forward to inner adapter (e.g. idle detection, DBOS stream)
             await super().write_to_event_stream(event)
